@@ -296,6 +296,33 @@ def model_view(model):
     return {"assets": assets, "links": links, "attackers": attackers, "defenses": full_def, "tuples": tuples}
 
 
+def build_model(lcf, rec, name="m"):
+    """real Model from a recipe through the public API (add_asset / add_association / add_attacker).
+    Assets are always constructed WITH a name (short form -> "<type>:<id>", as the loaders do) and entry-point tuples
+    are set directly (as the loaders do): AttackerAttachment.get_entry_point_tuple and Model._validate_association
+    compare generated objects with `==`, which recurses without bound on auto-named assets with isomorphic
+    associations - a matter of the model properties (C05), kept out of these floors' inputs."""
+    from maltoolbox.model import Model, AttackerAttachment
+    m = Model(name, lcf)
+    objs = []
+    for (t, nm, i, defs) in rec["assets"]:
+        a = getattr(lcf.ns, t)(name=("%s:%s" % (t, i) if nm is None else nm))
+        for d, v in defs.items():
+            setattr(a, d, float(v))
+        m.add_asset(a, asset_id=i)
+        objs.append(a)
+    for (cls, f1, l, f2, r) in rec["links"]:
+        s = getattr(lcf.ns, cls)()
+        setattr(s, f1, [objs[k] for k in l])
+        setattr(s, f2, [objs[k] for k in r])
+        m.add_association(s)
+    for (nm, i, eps) in rec["attackers"]:
+        at = AttackerAttachment(name=nm)
+        at.entry_points = [(objs[k], list(steps)) for (k, steps) in eps]
+        m.add_attacker(at, attacker_id=i)
+    return m, objs
+
+
 # ---------------------------------------------------------------------------------------------------
 # the three layouts
 
